@@ -1,6 +1,7 @@
 import RustCcModel.Proofs.CtlSimp
 import RustCcModel.Proofs.ExecsCount
 import RustCcModel.Proofs.BytesInv
+import RustCcModel.Proofs.ListsRefine
 /-! # C11 — introspection counters match reality
 
 How each helper moves the three counters (`allocated_bytes`, `executions_count`, the buffer size), and
@@ -102,5 +103,50 @@ machine — running or unwinding, whatever the world — the counter grows by th
 `collect()` that got past its "already collecting" check) the step emits. -/
 theorem executions_count_exact (c : Cfg) (w : World) : (step c w).execs = w.execs + cEv (newEvents w (step c w)) :=
   step_execs c w
+
+/-! ## The buffer at pointer level (`Model/Lists.lean`, `Proofs/ListsRefine.lean`)
+
+The machine above keeps the buffer as a `List`. `src/lists.rs` keeps it as an intrusive doubly linked list threaded through
+the boxes, with a cached size, next to the collector's `LinkedList`s and its `LinkedQueue`, all sharing the same two link
+fields of each box. The pointer-level model of that file refines the plain lists: -/
+open Lists in
+/-- **The cached size of the buffer is the number of boxes its iterator yields**, after any sequence of list operations
+(`add`, `remove`, `remove_first`, `mark_self_and_append`, `swap_list`, drops, and the same on the collector's other
+lists), the iterator yields exactly the specification's list, without duplicates, and the buffer is empty iff `first` is
+`None`. -/
+theorem buffer_size_is_length (n : Nat) (ops : List LOp) :
+    let w := ops.foldl LW.step { n := n }
+    let a := ops.foldl (AW.step n) {}
+    w.members w.pc.first = a.p ∧ w.pc.size = (w.members w.pc.first).length ∧ (w.members w.pc.first).Nodup ∧
+    (w.pc.first = none ↔ a.p = []) := by
+  intro w a
+  have h := (run_refines n ops).1
+  refine ⟨h.members_p, by rw [h.members_p]; exact h.size, by rw [h.members_p]; exact h.p.nodup, ?_⟩
+  rw [h.p.first_eq]
+  cases a.p <;> simp
+
+open Lists in
+/-- **A box is linked into at most one of the collector's structures, and an unlinked box has no dangling link**: after any
+sequence of operations the four structures are pairwise disjoint and every box that is in none of them has
+`next = prev = None` (what `debug_assert_nones` checks before every `add`). -/
+theorem lists_disjoint_and_clean (n : Nat) (ops : List LOp) (x : Nat) :
+    let w := ops.foldl LW.step { n := n }
+    ((w.members w.l0).count x + (w.members w.l1).count x + (w.members w.pc.first).count x + (w.members w.q.first).count x ≤ 1) ∧
+    (x ∉ w.members w.l0 → x ∉ w.members w.l1 → x ∉ w.members w.pc.first → x ∉ w.members w.q.first →
+      (w.mem x).next = none ∧ (w.mem x).prev = none) := by
+  intro w
+  have h := (run_refines n ops).1
+  have e0 : w.members w.l0 = _ := h.members_l false
+  have e1 : w.members w.l1 = _ := h.members_l true
+  rw [e0, e1, h.members_p, h.members_q]
+  refine ⟨h.cnt x, fun h0 h1 h2 h3 => h.free x ?_⟩
+  simp only [AW.cnt, AW.getL] at *
+  simp only [Bool.false_eq_true, if_false, if_true] at h0 h1
+  rw [List.count_eq_zero.2 h0, List.count_eq_zero.2 h1, List.count_eq_zero.2 h2, List.count_eq_zero.2 h3]
+
+open Lists in
+/-- Non-vacuity: a run that buffers three boxes, removes the middle one and appends a list of two. -/
+example : (([LOp.pcAdd 0, .pcAdd 1, .pcAdd 2, .pcRemove 1, .llAdd false 3, .llAdd false 4, .pcAppend false 2].foldl
+    (AW.step 5) {}).p = [2, 0, 4, 3]) := by decide
 
 end RustCc.C11
